@@ -1,62 +1,73 @@
 //! C17 — rank/select and wavelet-matrix queries equal naive counting.
-//! Oracle: counting loops over a `[bool; N]` model of the bit vector / a byte array model of the text.
+//! Oracle: the bit vector is modelled by a machine word `w` (bit i of the vector = bit i of w, N <= 128), so the oracle is
+//! loop-free (`count_ones` of a masked word, a declarative "is this the j-th matching bit" predicate) and the harness
+//! needs no unwinding beyond the library's own loops (blocks of a superblock, bits of a byte).
 use bio::data_structures::rank_select::RankSelect;
 use bio::data_structures::wavelet_matrix::WaveletMatrix;
 use bv::BitVec;
 
 #[cfg(kani)]
-fn sym_bits<const N: usize>() -> (BitVec<u8>, [bool; N]) {
-    let model: [bool; N] = kani::any();
+fn sym_bits<const N: usize>() -> (BitVec<u8>, u128) {
+    use bv::BitsMut;
+    let w: u128 = kani::any();
+    let w = if N < 128 { w & ((1u128 << N) - 1) } else { w };
     let mut bits: BitVec<u8> = BitVec::new_fill(false, N as u64);
-    let mut i = 0;
+    let full = N / 8;
+    let mut b = 0;
+    while b < full {
+        bits.set_block(b, (w >> (8 * b)) as u8);
+        b += 1;
+    }
+    // bits of the last, partial byte one by one, so that padding bits stay zero as the API leaves them
+    let mut i = full * 8;
     while i < N {
-        bits.set(i as u64, model[i]);
+        bits.set(i as u64, (w >> i) & 1 == 1);
         i += 1;
     }
-    (bits, model)
+    (bits, w)
 }
 
-fn count_upto<const N: usize>(model: &[bool; N], i: usize, x: bool) -> u64 {
-    // number of positions p <= i (p < N) with model[p] == x
-    let mut c = 0u64;
-    let mut p = 0;
-    while p < N {
-        if p <= i && model[p] == x {
-            c += 1;
-        }
-        p += 1;
+/// mask with the low `k` bits set (k <= 128)
+fn low(k: usize) -> u128 {
+    if k >= 128 {
+        u128::MAX
+    } else {
+        (1u128 << k) - 1
     }
-    c
 }
-
-/// position of the j-th (1-based) bit equal to x, if any
-fn select_naive<const N: usize>(model: &[bool; N], j: u64, x: bool) -> Option<u64> {
-    let mut c = 0u64;
-    let mut p = 0;
-    while p < N {
-        if model[p] == x {
-            c += 1;
-            if c == j {
-                return Some(p as u64);
-            }
-        }
-        p += 1;
+/// number of positions p <= i (p < n) with bit == x (definition, loop-free)
+fn count_upto(w: u128, n: usize, i: usize, x: bool) -> u64 {
+    let upto = if i + 1 < n { i + 1 } else { n };
+    let ones = (w & low(upto)).count_ones() as u64;
+    if x {
+        ones
+    } else {
+        upto as u64 - ones
     }
-    None
+}
+/// is `got` the correct answer for "position of the j-th (1-based) bit equal to x"? (declarative, loop-free)
+fn select_ok(w: u128, n: usize, j: u64, x: bool, got: Option<u64>) -> bool {
+    match got {
+        Some(p) => {
+            let p = p as usize;
+            p < n && (((w >> p) & 1 == 1) == x) && count_upto(w, n, p, x) == j && j >= 1
+        }
+        None => j == 0 || j > count_upto(w, n, n - 1, x),
+    }
 }
 
 #[cfg(kani)]
 pub fn rank<const N: usize, const K: usize>() {
-    let (bits, model) = sym_bits::<N>();
+    let (bits, w) = sym_bits::<N>();
     let rs = RankSelect::new(bits, K);
     let i: u64 = kani::any();
     kani::assume(i <= N as u64 + 1);
     let r1 = rs.rank_1(i);
     let r0 = rs.rank_0(i);
     if (i as usize) < N {
-        assert!(r1 == Some(count_upto(&model, i as usize, true)), "C17: rank_1 differs from naive count");
-        assert!(r0 == Some(count_upto(&model, i as usize, false)), "C17: rank_0 differs from naive count");
-        assert!(rs.get(i) == model[i as usize]);
+        assert!(r1 == Some(count_upto(w, N, i as usize, true)), "C17: rank_1 differs from naive count");
+        assert!(r0 == Some(count_upto(w, N, i as usize, false)), "C17: rank_0 differs from naive count");
+        assert!(rs.get(i) == ((w >> i) & 1 == 1));
     } else {
         assert!(r1.is_none() && r0.is_none(), "C17: rank beyond the end must be None");
     }
@@ -69,63 +80,37 @@ pub fn rank<const N: usize, const K: usize>() {
 
 #[cfg(kani)]
 pub fn select<const N: usize, const K: usize>() {
-    let (bits, model) = sym_bits::<N>();
+    let (bits, w) = sym_bits::<N>();
     let rs = RankSelect::new(bits, K);
     let j: u64 = kani::any();
     kani::assume(j <= N as u64 + 1);
     let s1 = rs.select_1(j);
     let s0 = rs.select_0(j);
-    if j == 0 {
-        assert!(s1.is_none() && s0.is_none(), "C17: select(0) must be None");
-    } else {
-        assert!(s1 == select_naive(&model, j, true), "C17: select_1 differs from naive scan");
-        assert!(s0 == select_naive(&model, j, false), "C17: select_0 differs from naive scan (padding bit?)");
-    }
-    // mutual inverse laws
-    if let Some(p) = s1 {
-        assert!(rs.rank_1(p) == Some(j));
-    }
-    if let Some(p) = s0 {
-        assert!(rs.rank_0(p) == Some(j));
-    }
+    assert!(select_ok(w, N, j, true, s1), "C17: select_1 is not the position of the j-th one (or None)");
+    assert!(select_ok(w, N, j, false, s0), "C17: select_0 is not the position of the j-th zero (or None; padding bit?)");
     kani::cover!(s1 == Some(N as u64 - 1), "last bit selected");
     kani::cover!(s0.is_none() && j > 0 && j <= N as u64, "fewer zeros than j");
+    if N > 32 {
+        kani::cover!(s1 == Some(31) && j == 32, "32nd one is the last bit of the first superblock");
+    }
     core::mem::forget(rs);
 }
 
-
-/// Superblock-boundary family: the first P bits are all equal to one symbolic bit b (an all-zero or all-one aligned run,
-/// the case the First/Some superblock markers exist for), the remaining N-P bits are symbolic. All query arguments symbolic.
+/// rank and select are mutually inverse, separate query to keep each formula small.
 #[cfg(kani)]
-pub fn select_run<const N: usize, const P: usize, const K: usize>() {
-    let b: bool = kani::any();
-    let tail: [bool; N] = kani::any();
-    let mut model = [false; N];
-    let mut bits: BitVec<u8> = BitVec::new_fill(false, N as u64);
-    let mut i = 0;
-    while i < N {
-        model[i] = if i < P { b } else { tail[i] };
-        bits.set(i as u64, model[i]);
-        i += 1;
-    }
+pub fn inverse<const N: usize, const K: usize>() {
+    let (bits, _w) = sym_bits::<N>();
     let rs = RankSelect::new(bits, K);
     let j: u64 = kani::any();
-    kani::assume(j <= N as u64 + 1);
+    kani::assume(j >= 1 && j <= N as u64);
     let s1 = rs.select_1(j);
-    let s0 = rs.select_0(j);
-    if j == 0 {
-        assert!(s1.is_none() && s0.is_none(), "C17: select(0) must be None");
-    } else {
-        assert!(s1 == select_naive(&model, j, true), "C17: select_1 differs from naive scan");
-        assert!(s0 == select_naive(&model, j, false), "C17: select_0 differs from naive scan (padding bit?)");
+    if let Some(p) = s1 {
+        assert!(rs.rank_1(p) == Some(j), "C17: rank_1(select_1(j)) != j");
     }
-    let i: u64 = kani::any();
-    kani::assume(i <= N as u64);
-    if (i as usize) < N {
-        assert!(rs.rank_1(i) == Some(count_upto(&model, i as usize, true)), "C17: rank_1 differs from naive count");
+    if let Some(p) = rs.select_0(j) {
+        assert!(rs.rank_0(p) == Some(j), "C17: rank_0(select_0(j)) != j");
     }
-    kani::cover!(s1 == Some(P as u64 - 1), "last bit of the run selected");
-    kani::cover!(s0 == Some(P as u64), "first bit after the run selected");
+    kani::cover!(s1.is_some() && j >= 2, "j-th one exists");
     core::mem::forget(rs);
 }
 
@@ -165,36 +150,33 @@ pub fn wavelet<const N: usize>() {
 }
 
 use crate::inst;
-inst!(c17_rank_n1_k1, 12, rank::<1, 1>());
-inst!(c17_rank_n7_k1, 12, rank::<7, 1>());
-inst!(c17_rank_n8_k1, 12, rank::<8, 1>());
-inst!(c17_rank_n9_k1, 12, rank::<9, 1>());
-inst!(c17_rank_n31_k1, 34, rank::<31, 1>());
-inst!(c17_rank_n33_k1, 36, rank::<33, 1>());
-inst!(c17_rank_n40_k1, 43, rank::<40, 1>());
-inst!(c17_rank_n65_k1, 68, rank::<65, 1>());
-inst!(c17_rank_n72_k2, 75, rank::<72, 2>());
-inst!(c17_rank_n65_k2, 68, rank::<65, 2>());
-inst!(c17_select_n1_k1, 12, select::<1, 1>());
-inst!(c17_select_n7_k1, 12, select::<7, 1>());
-inst!(c17_select_n8_k1, 12, select::<8, 1>());
-inst!(c17_select_n9_k1, 12, select::<9, 1>());
-inst!(c17_select_n31_k1, 34, select::<31, 1>());
-inst!(c17_select_n33_k1, 36, select::<33, 1>());
-inst!(c17_select_n40_k1, 43, select::<40, 1>());
-inst!(c17_select_n65_k1, 68, select::<65, 1>());
-inst!(c17_select_n72_k2, 75, select::<72, 2>());
-inst!(c17_select_n65_k2, 68, select::<65, 2>());
+inst!(c17_rank_n1_k1, 11, rank::<1, 1>());
+inst!(c17_rank_n7_k1, 11, rank::<7, 1>());
+inst!(c17_rank_n8_k1, 11, rank::<8, 1>());
+inst!(c17_rank_n9_k1, 11, rank::<9, 1>());
+inst!(c17_rank_n31_k1, 11, rank::<31, 1>());
+inst!(c17_rank_n33_k1, 11, rank::<33, 1>());
+inst!(c17_rank_n40_k1, 11, rank::<40, 1>());
+inst!(c17_rank_n65_k1, 12, rank::<65, 1>());
+inst!(c17_rank_n65_k2, 12, rank::<65, 2>());
+inst!(c17_rank_n72_k2, 13, rank::<72, 2>());
+inst!(c17_rank_n128_k2, 20, rank::<128, 2>());
+inst!(c17_select_n1_k1, 11, select::<1, 1>());
+inst!(c17_select_n7_k1, 11, select::<7, 1>());
+inst!(c17_select_n8_k1, 11, select::<8, 1>());
+inst!(c17_select_n9_k1, 11, select::<9, 1>());
+inst!(c17_select_n16_k1, 11, select::<16, 1>());
+inst!(c17_select_n17_k1, 11, select::<17, 1>());
+inst!(c17_select_n24_k1, 11, select::<24, 1>());
+inst!(c17_select_n31_k1, 11, select::<31, 1>());
+inst!(c17_select_n33_k1, 11, select::<33, 1>());
+inst!(c17_select_n40_k1, 11, select::<40, 1>());
+inst!(c17_select_n65_k1, 12, select::<65, 1>());
+inst!(c17_select_n65_k2, 12, select::<65, 2>());
+inst!(c17_select_n72_k2, 13, select::<72, 2>());
+inst!(c17_inverse_n9_k1, 11, inverse::<9, 1>());
+inst!(c17_inverse_n33_k1, 11, inverse::<33, 1>());
+inst!(c17_inverse_n65_k2, 12, inverse::<65, 2>());
 inst!(c17_wavelet_n1, 10, wavelet::<1>());
-inst!(c17_wavelet_n3, 10, wavelet::<3>());
-inst!(c17_wavelet_n5, 10, wavelet::<5>());
-inst!(c17_wavelet_n6, 10, wavelet::<6>());
-inst!(c17_select_n16_k1, 19, select::<16, 1>());
-inst!(c17_select_n17_k1, 20, select::<17, 1>());
-inst!(c17_select_n24_k1, 27, select::<24, 1>());
 inst!(c17_wavelet_n2, 10, wavelet::<2>());
-inst!(c17_selectrun_n36_p32_k1, 40, select_run::<36, 32, 1>());
-inst!(c17_selectrun_n40_p31_k1, 44, select_run::<40, 31, 1>());
-inst!(c17_selectrun_n40_p33_k1, 44, select_run::<40, 33, 1>());
-inst!(c17_selectrun_n68_p64_k2, 72, select_run::<68, 64, 2>());
-inst!(c17_selectrun_n68_p64_k1, 72, select_run::<68, 64, 1>());
+inst!(c17_wavelet_n3, 10, wavelet::<3>());
